@@ -3,7 +3,13 @@
    PastUntilProofs.v).  The model (theories/L6Past/PastModel.v, function
    `translate fx until`) follows omega/logic/past.py; `fx = true` is the code
    after fixes/F5_F10.patch, `fx = false` the code before it.  The model is
-   tied to the real code by the correspondence check of tools/props/c15.py.
+   tied to the real code (a) by translation: omega/logic/past.py (the flatten
+   methods, _flatten_previous/_since/_until, _make_tester_for_previous,
+   translate) is translated into Gallina on every run (tools/py2coq_past.py ->
+   gen/PastGen.v) and GenProofs/PastBridge.v proves the generated `translate`
+   equal to the model (C15_model_is_translated_code below), and (b) by the
+   correspondence check of tools/props/c15.py (parser, strings as trees,
+   syntax.conj, comparisons).
 
    Vocabulary
      sigma : nat -> env           the sequence of values of the user variables
@@ -21,6 +27,8 @@ From Omega Require Import L6Past.PastSyntax L6Past.PastModel L6Past.PastSpec
   L6Past.PastProofs L6Past.PastUntil L6Past.PastUntilProofs
   L6Past.PastUntilClassical
   L6Past.PastCheck L6Past.PastFast L6Past.PastFastProofs.
+From OmegaGen Require PastGen.
+From OmegaGP Require Import PastBridge.
 Open Scope string_scope.
 
 (* ---------------------------------------------------------------- main *)
@@ -259,6 +267,75 @@ Proof.
                   ltac:(no_clash_tac) sig0)). exact R.
 Qed.
 
+(* ------------------------------------------- tie T: the translated code *)
+(* gen/PastGen.v is the Gallina translation of the CURRENT omega/logic/past.py
+   (and of the flatten methods of omega/logic/ast.py and astutils it inherits),
+   regenerated on every run.  `node_of f` is the parser tree of the formula f
+   (PastBridge.v: FNot x |-> Nodes.Unary('~', x), FPrevW x |-> Nodes.Unary('-X',
+   x), FSince x y |-> Nodes.Binary('S', x, y), ...), `fuel` bounds the depth of
+   nested flatten calls (Python's recursion limit; `need f` <= 2 * depth + 1
+   suffices), `erase_translation` forgets the model's ghost field t_tracks and
+   packs the result as the tuple (dvars, translated, init, trans, win) that the
+   code returns.  For both values of `until` (debug=False): *)
+Theorem C15_model_is_translated_code :
+  forall (unt : bool) (f : form) (fuel : nat),
+  need f <= fuel ->
+  PastGen.translate fuel (node_of f) false unt
+  = Some (erase_translation (translate true unt f)).
+Proof. exact translate_generated_is_model. Qed.
+
+(* the same for tree.flatten(testers=T, context='bool', until=unt) started on
+   an arbitrary dictionary T (result string and final dictionary) *)
+Theorem C15_flatten_is_translated_code :
+  forall (unt : bool) (f : form) (fuel : nat) (T : list tester),
+  need f <= fuel ->
+  PastGen.flatten fuel (node_of f) (K unt) (erase T)
+  = Some (fst (tr true unt f T), erase (snd (tr true unt f T))).
+Proof. exact flatten_ok. Qed.
+
+(* the main theorems restated for what the translated code returns *)
+Theorem C15_translated_past_exact : forall (unt : bool) (f : form) (fuel : nat),
+  past_only f = true -> need f <= fuel ->
+  exists o, PastGen.translate fuel (node_of f) false unt = Some o /\
+  let X := of_output o in
+  no_clash f (x_names X) ->
+  forall (sigma : nat -> env) (n : nat),
+  exists alpha : nat -> env,
+    is_solution X sigma alpha n /\
+    (forall alpha', is_solution X sigma alpha' n ->
+       forall i v, i < n -> In v (x_names X) -> alpha' i v = alpha i v) /\
+    (forall alpha', is_solution X sigma alpha' n ->
+       forall i, i < n ->
+         (eval (comb (x_names X) sigma alpha' i) (x_formula X) = true
+          <-> holds f sigma i)).
+Proof. exact translated_past_exact. Qed.
+
+Theorem C15_translated_until_full : forall (f : form) (fuel : nat),
+  need f <= fuel ->
+  exists o, PastGen.translate fuel (node_of f) false true = Some o /\
+  let X := of_output o in
+  no_clash f (x_names X) ->
+  forall sigma : nat -> env,
+  exists alpha : nat -> env,
+    is_solution_inf X sigma alpha /\
+    (forall alpha', is_solution_inf X sigma alpha' ->
+       forall i v, In v (x_names X) -> alpha' i v = alpha i v) /\
+    (forall alpha', is_solution_inf X sigma alpha' ->
+       forall i, eval (comb (x_names X) sigma alpha' i) (x_formula X) = true
+                 <-> holds f sigma i).
+Proof. exact translated_until_full. Qed.
+
+(* non-vacuity: the translated code run (inside Coq) on the tree of ex_f
+   returns the model's result; with too little fuel it returns None *)
+Example C15_translated_code_runs :
+  need ex_f = 7 /\
+  option_map (fun o => x_names (of_output o))
+    (PastGen.translate 7 (node_of ex_f) false false)
+  = Some ["p_prev1"; "_aux1"; "_aux2"; "_aux3"; "_aux4"; "_aux5"; "_aux6";
+          "_aux7"] /\
+  PastGen.translate 3 (node_of ex_f) false false = None.
+Proof. vm_compute. repeat split; reflexivity. Qed.
+
 (* ------------------------------------------------------ correspondence *)
 (* what the correspondence cases evaluate (PastFast: names resolved to
    positions, one pass per sequence) is the comparison written with the plain
@@ -287,5 +364,9 @@ Print Assumptions C15_until_flag_irrelevant.
 Print Assumptions C15_until_full.
 Print Assumptions C15_until_partial.
 Print Assumptions C15_until_partial_exists.
+Print Assumptions C15_model_is_translated_code.
+Print Assumptions C15_flatten_is_translated_code.
+Print Assumptions C15_translated_past_exact.
+Print Assumptions C15_translated_until_full.
 Print Assumptions C15_check_fast_is_plain.
 Print Assumptions C15_check_is_exhaustive.
